@@ -17,6 +17,7 @@ import common
 import minif
 from common import sx, parse_sx
 from props import c06_real as R
+from props import c06_sr as SR
 
 FRESH = {"hole": "hole__"}
 
@@ -842,13 +843,19 @@ def run(chk):
     chk.cov["rule"] = ("generated statements (array-section assignments incl. overlapping / strided / empty sections and "
                        "non-unit lower bounds; ABS/SIGN/MIN/MAX calls with 1..4 arguments inside scalar assignments; "
                        "SUM/PRODUCT/MINVAL/MAXVAL with masks, DIM, context expressions; DOT_PRODUCT; MATMUL; constant-index "
-                       "access; whole-array references) inside a fixed test program; non-trivial = the transformation "
+                       "access; whole-array references) inside a fixed test program; plus the systematic same_range family of "
+                       "props/c06_sr.py: (array of rank 1..3 declared explicit / `lo:` / assumed-shape / allocatable, literal or "
+                       "symbolic lower bound, position of the range) x (the same) x range form, as array assignments and as "
+                       "SUM/MAXVAL arguments, with same_range / is_*_bound / SymbolicMaths.equal instrumented; non-trivial = the transformation "
                        "accepted the statement and both programs compiled and ran; distinct by statement text+target")
     chk.assumptions += [
         "REAL data restricted to small integer values (exact in single precision); no signed zeros / NaNs",
-        "SymbolicMaths.equal on the generated bound expressions (literals, n, n+1, n-1, k, k+1) coincides with syntactic equality",
-        "Lean model covers sections with exactly one range on rank-1/rank-2 arrays; rank-2 sections, matrix-matrix MATMUL, "
-        "array-slice DOT_PRODUCT, ArrayAccess2Loop and Reference2ArrayRange are evaluated with gfortran only",
+        "SymbolicMaths.equal: in the same_range family every pair it is asked about is also decided by the Lean linear normal "
+        "form C06.linEq (proved sound) and the answers are compared; in the older families the bound expressions (literals, n, n+1, "
+        "n-1, k, k+1) are compared syntactically by the model",
+        "element-wise semantics in Lean (MiniF) for arrays of rank <= 2; for accesses of rank 3 the same_range decisions are "
+        "compared with the model (rank-independent theorems C06_same_range_start_sound / C06_index_expr_sound) and the values "
+        "with gfortran only; all arrays are local DataSymbols of ArrayType (no imported / untyped arrays, no structure members)",
         "generated names (idx, tmp_var, res_*, tmp_*) are fresh: guaranteed by SymbolTable.new_symbol"]
     chk.cov["trusted_base"] = ["Lean 4.33.0 kernel", "axioms propext/Classical.choice/Quot.sound only (audited)",
                                "MiniF semantics + PSyIR->MiniF exporter (harness/minif.py, validated against gfortran)",
@@ -949,6 +956,8 @@ def run(chk):
         if not agreed:
             chk.correspondence_broken(f"{case['trans']} differs from the Lean model on {case['stmts']}",
                                       {"case": case, "params": e["params"]}, ans, e["real"])
+    # systematic same_range family (rank x range position x declaration kind x range form), own test subroutine
+    SR.run(chk, findings, dist)
     chk.cov["distribution"] = dist
     # known findings: replay the witnesses
     for f in findings:
@@ -957,6 +966,8 @@ def run(chk):
 
 
 def replay_case(case, params, quiet=False):
+    if case.get("kind") == "sr":
+        return SR.replay_case(case, params, quiet=quiet)
     src, ap = evaluate(case, params)
     ood = R.outside_domain(ap.orig_stmt, case["target"])
     if ood:
